@@ -2,6 +2,7 @@ import XPathV.Lemmas.Facts
 import XPathV.Generated.ExtraFacts
 import XPathV.Lemmas.C11Base
 import XPathV.Lemmas.UnionSem
+import XPathV.Lemmas.UnionSem2
 /-!
 # C11 — union yields the set union, each node exactly once (property-level theorems)
 
@@ -132,5 +133,107 @@ identity: two bug-hunting agents constructed colliding names within a minute, §
 theorem identity_is_the_key_string :
     Generated.nodeKeyHead = ["sb.WriteString(strconv.Itoa(int(n.NodeType())))", "sb.WriteByte(':')"] ∧
     Generated.nodeKeyIsString = true := ⟨rfl, rfl⟩
+
+end XPathV.Theorems.C11
+
+/-! ## the extended fragment `Frag2`
+
+The same statements for operands in `PredSem2.Frag2 true` — the C02 fragment as it stands now: besides
+the forms of `Frag`, predicates `count(P) op n`, `n op count(P)`, `not(count(P))`, `contains` /
+`starts-with` / `ends-with` over literals, `local-name()`, `local-name(P)` and flat paths,
+`local-name(…) = 'lit'`, a path compared with a path or with a string literal (six operators, either
+side), and the parenthesised filter input `(P)[b]`.  Proofs in `Lemmas/UnionSem2.lean`; `Frag true`
+is contained in `Frag2 true` (`PredSem2.frag2_of_frag`), so these subsume the theorems above. -/
+namespace XPathV.Theorems.C11
+open XPathV XPathV.Model XPathV.Facts XPathV.PathSem XPathV.PredSem XPathV.PredSem2 XPathV.UnionSem
+  XPathV.UnionSem2 NumAlg
+
+variable {F : Type} [NumAlg F]
+
+/-- **C11 (main theorem, through the builder, extended fragment)**: `C11_main` for operands of
+`Frag2 true` -/
+theorem C11_main_full {d : Doc} (wf : WF d) (cfg : ECfg) (hns : cfg.nsIface = true) (hinj : HashInj d cfg)
+    (regexOk : RegexOk) (limit : Nat) (A B : Ast) (hA : Frag2 true A) (hB : Frag2 true B) (fl : Flags)
+    (st : BState) (o : BOut) (hb : build regexOk limit true false (.oper "|" A B) fl st = .ok o)
+    (c : Ref) (hc : validRef d c = true) :
+    ∃ out nsA gA nsB gB nsU,
+      sel (F := F) d cfg o.q c = .ok out ∧ (refs out).Nodup ∧
+      Spec.eval (F := F) d A ⟨c, 1, 1⟩ = .ok (.val (.nodes nsA) gA) ∧
+      Spec.eval (F := F) d B ⟨c, 1, 1⟩ = .ok (.val (.nodes nsB) gB) ∧
+      (∀ x, x ∈ refs out ↔ x ∈ nsA ∨ x ∈ nsB) ∧
+      Spec.eval (F := F) d (.oper "|" A B) ⟨c, 1, 1⟩ = .ok (.val (.nodes nsU) none) ∧
+      nsU.Nodup ∧ (∀ x, x ∈ nsU ↔ x ∈ nsA ∨ x ∈ nsB) ∧ (∀ x, x ∈ refs out ↔ x ∈ nsU) :=
+  UnionSem2.C11_main2 wf cfg hns hinj regexOk limit A B hA hB fl st o hb c hc
+
+/-- `C11_main_full` without the `HashInj` hypothesis (`hashInj_holds`; the side condition left is "no
+element has two attributes with the same prefix, name and value") -/
+theorem C11_main_full_unconditional {d : Doc} (wf : WF d) (cfg : ECfg) (hns : cfg.nsIface = true)
+    (hattr : AttrTriplesDistinct d)
+    (regexOk : RegexOk) (limit : Nat) (A B : Ast) (hA : Frag2 true A) (hB : Frag2 true B) (fl : Flags)
+    (st : BState) (o : BOut) (hb : build regexOk limit true false (.oper "|" A B) fl st = .ok o)
+    (c : Ref) (hc : validRef d c = true) :
+    ∃ out nsA gA nsB gB nsU,
+      sel (F := F) d cfg o.q c = .ok out ∧ (refs out).Nodup ∧
+      Spec.eval (F := F) d A ⟨c, 1, 1⟩ = .ok (.val (.nodes nsA) gA) ∧
+      Spec.eval (F := F) d B ⟨c, 1, 1⟩ = .ok (.val (.nodes nsB) gB) ∧
+      (∀ x, x ∈ refs out ↔ x ∈ nsA ∨ x ∈ nsB) ∧
+      Spec.eval (F := F) d (.oper "|" A B) ⟨c, 1, 1⟩ = .ok (.val (.nodes nsU) none) ∧
+      nsU.Nodup ∧ (∀ x, x ∈ nsU ↔ x ∈ nsA ∨ x ∈ nsB) ∧ (∀ x, x ∈ refs out ↔ x ∈ nsU) :=
+  C11_main_full wf cfg hns (PathSem.hashInj_holds wf hattr cfg) regexOk limit A B hA hB fl st o hb c hc
+
+/-- **n-ary, extended fragment**: `C11_nary` for operands of `Frag2 true` -/
+theorem C11_nary_full {d : Doc} (wf : WF d) (cfg : ECfg) (hns : cfg.nsIface = true) (hinj : HashInj d cfg)
+    (regexOk : RegexOk) (limit : Nat) (p : Ast) (ps : List Ast) (hp : Frag2 true p)
+    (hps : ∀ q ∈ ps, Frag2 true q) (hne : ps ≠ []) (st : BState) (o : BOut)
+    (hb : build regexOk limit true false (unionOf p ps) {} st = .ok o)
+    (c : Ref) (hc : validRef d c = true) :
+    ∃ out ns g, sel (F := F) d cfg o.q c = .ok out ∧ (refs out).Nodup ∧
+      Spec.eval (F := F) d (unionOf p ps) ⟨c, 1, 1⟩ = .ok (.val (.nodes ns) g) ∧ ns.Nodup ∧
+      (∀ x, x ∈ refs out ↔ ∃ q ∈ p :: ps, x ∈ nodesAt d F q c) ∧
+      (∀ x, x ∈ ns ↔ ∃ q ∈ p :: ps, x ∈ nodesAt d F q c) :=
+  UnionSem2.C11_nary2 wf cfg hns hinj regexOk limit p ps hp hps hne st o hb c hc
+
+/-- `C11_nary_full` without the `HashInj` hypothesis -/
+theorem C11_nary_full_unconditional {d : Doc} (wf : WF d) (cfg : ECfg) (hns : cfg.nsIface = true)
+    (hattr : AttrTriplesDistinct d)
+    (regexOk : RegexOk) (limit : Nat) (p : Ast) (ps : List Ast) (hp : Frag2 true p)
+    (hps : ∀ q ∈ ps, Frag2 true q) (hne : ps ≠ []) (st : BState) (o : BOut)
+    (hb : build regexOk limit true false (unionOf p ps) {} st = .ok o)
+    (c : Ref) (hc : validRef d c = true) :
+    ∃ out ns g, sel (F := F) d cfg o.q c = .ok out ∧ (refs out).Nodup ∧
+      Spec.eval (F := F) d (unionOf p ps) ⟨c, 1, 1⟩ = .ok (.val (.nodes ns) g) ∧ ns.Nodup ∧
+      (∀ x, x ∈ refs out ↔ ∃ q ∈ p :: ps, x ∈ nodesAt d F q c) ∧
+      (∀ x, x ∈ ns ↔ ∃ q ∈ p :: ps, x ∈ nodesAt d F q c) :=
+  C11_nary_full wf cfg hns (PathSem.hashInj_holds wf hattr cfg) regexOk limit p ps hp hps hne st o hb
+    c hc
+
+/-- **sequence form `p/(s, t, …)`, extended fragment**: `C11_sequence` for `p` in `Frag2 true` and
+member steps whose predicates are in `Frag2 false` (`StepOK2`) -/
+theorem C11_sequence_full {d : Doc} (wf : WF d) (cfg : ECfg) (hns : cfg.nsIface = true) (hinj : HashInj d cfg)
+    (regexOk : RegexOk) (limit : Nat) (p : Ast) (hp : Frag2 true p) (s : SeqStep)
+    (ss : List SeqStep) (hs : StepOK2 s) (hss : ∀ t ∈ ss, StepOK2 t) (st : BState) (o : BOut)
+    (hb : build regexOk limit true false (seqForm p s ss) {} st = .ok o)
+    (c : Ref) (hc : validRef d c = true) :
+    ∃ out ns g, sel (F := F) d cfg o.q c = .ok out ∧
+      Spec.eval (F := F) d (seqForm p s ss) ⟨c, 1, 1⟩ = .ok (.val (.nodes ns) g) ∧
+      (∀ x, x ∈ refs out ↔ x ∈ ns) ∧
+      (∀ x, x ∈ ns ↔ ∃ t ∈ s :: ss, ∃ n ∈ nodesAt d F p c, x ∈ nodesAt d F (stepOn .none t) n) ∧
+      (ss ≠ [] → (refs out).Nodup ∧ ns.Nodup) :=
+  UnionSem2.C11_sequence2 wf cfg hns hinj regexOk limit p hp s ss hs hss st o hb c hc
+
+/-- `C11_sequence_full` without the `HashInj` hypothesis -/
+theorem C11_sequence_full_unconditional {d : Doc} (wf : WF d) (cfg : ECfg) (hns : cfg.nsIface = true)
+    (hattr : AttrTriplesDistinct d)
+    (regexOk : RegexOk) (limit : Nat) (p : Ast) (hp : Frag2 true p) (s : SeqStep)
+    (ss : List SeqStep) (hs : StepOK2 s) (hss : ∀ t ∈ ss, StepOK2 t) (st : BState) (o : BOut)
+    (hb : build regexOk limit true false (seqForm p s ss) {} st = .ok o)
+    (c : Ref) (hc : validRef d c = true) :
+    ∃ out ns g, sel (F := F) d cfg o.q c = .ok out ∧
+      Spec.eval (F := F) d (seqForm p s ss) ⟨c, 1, 1⟩ = .ok (.val (.nodes ns) g) ∧
+      (∀ x, x ∈ refs out ↔ x ∈ ns) ∧
+      (∀ x, x ∈ ns ↔ ∃ t ∈ s :: ss, ∃ n ∈ nodesAt d F p c, x ∈ nodesAt d F (stepOn .none t) n) ∧
+      (ss ≠ [] → (refs out).Nodup ∧ ns.Nodup) :=
+  C11_sequence_full wf cfg hns (PathSem.hashInj_holds wf hattr cfg) regexOk limit p hp s ss hs hss st
+    o hb c hc
 
 end XPathV.Theorems.C11
